@@ -17,7 +17,7 @@ use sha2::Sha256;
 /// Decorated schemas without the three known-finding classes (logical types, decimal
 /// precision/scale, `order`), which are probed separately.
 pub fn cfg() -> SgenCfg {
-    SgenCfg { logical: false, field_order: false, ..SgenCfg::decorated() }
+    SgenCfg { logical: false, field_order: false, same_simple_names: true, ..SgenCfg::decorated() }
 }
 
 fn has_nested_named_or_ns(n: &SNode) -> bool {
